@@ -24,3 +24,14 @@ PROPS["C17"] = dict(
     design_ref="§6 C17",
     scope="all strings (unbounded) x {mysql, postgres, sqlite}",
 )
+
+PROPS["C03"] = dict(
+    groups=["escape"],
+    lean_props=["SeaQ.Props.C03"],
+    lean_obligations=[],
+    technique="Lean 4 proof that the engines' literal lexers (specification) read back what the model of write_string_quoted / write_bytes / Value::Char writes, over escape tables regenerated from the source; writers tied by exhaustive + random differential run; every inlining position checked on the real crate with an independent reference lexer",
+    level_text="Machine-checked proof, for every string (minus the explicitly excluded characters), every byte string and every character, that the literal the crate writes is read by the target engine's lexer as ONE literal whose decoded content is the supplied value and that the lexer stops exactly where the crate stopped writing (no early termination = no injection). The MySQL / Postgres (E'' switch, bytea hex) / SQLite lexers are the specification; the escape chain is regenerated from the source and the per-dialect side condition re-proved by decide. 'Every position' (query values, constants, ORDER BY FIELD, LIKE ESCAPE, INSERT, DEFAULT, COMMENT, ENUM labels, CREATE/ALTER TYPE) is checked on the real crate's output with an independent Rust re-implementation of the three lexers.",
+    level_note="Trusted: Lean kernel; translator; the three literal lexers as transcribed from the engines' manuals (SQLite's validated against the real engine in the C07/C13 engine runs; MySQL/Postgres cannot be validated here); differential run for write_string_quoted/write_bytes/Char arm (modelled, not verified). U+001A (written `\\z`) is a recorded finding and excluded in the theorem statement for MySQL/Postgres; NUL is excluded for Postgres (no representation).",
+    design_ref="§6 C03",
+    scope="all strings / byte strings / chars x 3 backends (writer level); positions by oracle",
+)
